@@ -396,6 +396,6 @@ let mut vx_i: usize = 0;
 //@dropped LiftingPasses::get / get_mut (iterator find + downcast through Any): not extracted
 //@dropped the body of each pass constructor `X::new()` (`Box::new(Self)`; the hash table of StorageSlotHashes) and the unsizing coercion Box<X> -> Box<dyn Lift> inside `vec![..]`: stand-ins tagged with the pass kind (A-CALLEE)
 //@dropped what the six passes whose `run` lives in other units do is not connected here: `run` is decided against the interface (`fails` / `image` / `error` of whatever passes are in the list); that SubWordValue/MulShiftedValue ESTABLISH packed_lift's `seg_ok` and that StorageSlots only wraps already-lifted keys is the business of units arith_sites, packed_lift, guards — here only the ORDER they rely on
-//@dropped insert_mapping_offset (mapping_offset.rs): stand-in without a contract; MappingOffset::run only hands it to the traversal
+//@dropped insert_mapping_offset (mapping_offset.rs): a stand-in here; its body is under contract in unit guards (C05.guard.insert_mapping_offset.*)
 } // verus!
 fn main() {}
